@@ -269,11 +269,19 @@ def ast_sym(f, cache):
     return ast_sym(f[1], cache) ** f[2]
 
 
-def check_sym_obs(h, M, n, psi, rho, label):
-    """all observation points of one SymbolicHamiltonian against the matrix M (exact)"""
+def check_sym_obs(h, M, n, psi, rho, label, tol=0.0):
+    """all observation points of one SymbolicHamiltonian against the matrix M (exact; tol > 0 only for non-dyadic data)"""
+    def same(a, b):
+        a, b = np.asarray(a), np.asarray(b)
+        if a.shape != b.shape:
+            return False
+        return np.array_equal(a, b) if tol == 0 else float(np.abs(a - b).max()) <= tol * max(1.0, float(np.abs(b).max()))
+
+    def samef(a, b):
+        return float(a) == float(b) if tol == 0 else abs(float(a) - float(b)) <= tol * max(1.0, abs(float(b)))
     if h.nqubits != n:
         return f"{label}.nqubits = {h.nqubits}, expected {n}"
-    if not np.array_equal(np.asarray(h.matrix), M):
+    if not same(h.matrix, M):
         return f"{label}.matrix differs from plain matrix arithmetic"
     g = Guard(psi=psi, rho=rho)
     zero = (not h.terms) and (not h.constant)
@@ -283,17 +291,17 @@ def check_sym_obs(h, M, n, psi, rho, label):
     es, ed = h.expectation(psi), h.expectation(rho)
     if g.changed():
         return f"{label}: expectation / @ modified the user's {g.changed()}"
-    if hp.shape != psi.shape or not np.array_equal(hp, M @ psi):
+    if hp.shape != psi.shape or not same(hp, M @ psi):
         return f"{label} @ psi (term by term) differs from matrix arithmetic"
-    if hr.shape != rho.shape or not np.array_equal(hr, M @ rho):
+    if hr.shape != rho.shape or not same(hr, M @ rho):
         return f"{label} @ rho (term by term, density matrix) differs from matrix arithmetic"
-    if float(es) != float(np.real(np.vdot(psi, M @ psi))):
+    if not samef(es, np.real(np.vdot(psi, M @ psi))):
         return f"{label}.expectation(psi) = {float(es)}, matrix arithmetic gives {float(np.real(np.vdot(psi, M @ psi)))}"
-    if float(ed) != float(np.real(np.trace(M @ rho))):
+    if not samef(ed, np.real(np.trace(M @ rho))):
         return f"{label}.expectation(rho) = {float(ed)}, matrix arithmetic gives {float(np.real(np.trace(M @ rho)))}"
     hd = h.dense
-    if float(hd.expectation(rho)) != float(ed) or not np.array_equal(np.asarray(hd @ rho), hr):
-        return f"{label}: dense route and symbolic route disagree on the density matrix"
+    if not samef(hd.expectation(rho), ed) or not same(hd @ rho, hr) or not same(hd @ psi, hp) or not samef(hd.expectation(psi), es):
+        return f"{label}: dense route and symbolic (term-by-term) route disagree on a state / density matrix"
     return None
 
 
@@ -600,10 +608,292 @@ def sec_circuit(run, rng):
                f"products (+ constant: {'REFUTED, open finding' if dropped else 'holds'}) == expectation(state); input circuit unchanged ({cnt} cases)", bad == 0, "test")
 
 
+
+# ------------------------------------------------------------------ built-in models in the algebra streams (families D/E/A)
+def np_model(rec):
+    """plain-numpy formula of a model recipe ["model", name, n, *params] (documented formulas of hamiltonians/models.py)"""
+    name, n = rec[1], rec[2]
+    one = lambda p, q: embed(P2[p], (q,), n)
+    ring = [(k, (k + 1) % n) for k in range(n)]
+    Z = np.zeros((2 ** n, 2 ** n), dtype=complex)
+
+    def heis(J, hf):
+        M = Z.copy()
+        for (i, j) in ring:
+            for c, p in zip(J, "XYZ"):
+                M = M - c * (one(p, i) @ one(p, j))
+        for q in range(n):
+            for c, p in zip(hf, "XYZ"):
+                M = M - c * one(p, q)
+        return M
+    if name == "TFIM":
+        return -sum((one("Z", i) @ one("Z", j) + rec[3] * one("X", i) for (i, j) in ring), Z)
+    if name in ("X", "Y", "Z"):
+        return -sum((one(name, q) for q in range(n)), Z)
+    if name == "Heisenberg":
+        return heis(rec[3], rec[4])
+    if name == "XXZ":
+        return heis([-1, -1, -rec[3]], [0, 0, 0])
+    if name == "XXX":
+        return heis([rec[3]] * 3, rec[4])
+    if name == "MaxCut":
+        adj = rec[3] if rec[3] is not None else [[1] * n for _ in range(n)]
+        return -sum((adj[i][j] * (np.eye(2 ** n) - one("Z", i) @ one("Z", j)) for i in range(n) for j in range(n)), Z) / 2
+    raise ValueError(rec)
+
+
+def qibo_model(rec):
+    from qibo import hamiltonians as H
+    name, n = rec[1], rec[2]
+    if name == "TFIM":
+        return H.TFIM(n, h=rec[3], dense=False)
+    if name in ("X", "Y", "Z"):
+        return getattr(H, name)(n, dense=False)
+    if name == "Heisenberg":
+        return H.Heisenberg(n, list(rec[3]), list(rec[4]), dense=False)
+    if name == "XXZ":
+        return H.XXZ(n, delta=rec[3], dense=False)
+    if name == "XXX":
+        return H.XXX(n, rec[3], list(rec[4]), dense=False)
+    if name == "MaxCut":
+        return H.MaxCut(n, dense=False) if rec[3] is None else H.MaxCut(n, dense=False, adj_matrix=rec[3])
+    raise ValueError(rec)
+
+
+def build_np(rec, n, leaves):
+    """recipe -> (object built with the real operators, numpy matrix); `leaves` caches ONE long-lived object per leaf recipe"""
+    from qibo.hamiltonians import SymbolicHamiltonian
+    from harness import c15 as base
+    k = rec[0]
+    if k in ("model", "form"):
+        key = repr(rec)
+        if key not in leaves:
+            if k == "model":
+                leaves[key] = (qibo_model(rec), np_model(rec))
+            else:
+                a = base._tup(rec[1])
+                leaves[key] = (SymbolicHamiltonian(base.ast_sympy(a), nqubits=n), ast_matrix(a, n))
+        return leaves[key]
+    if k in ("matmul", "add", "sub"):
+        (h1, M1), (h2, M2) = build_np(rec[1], n, leaves), build_np(rec[2], n, leaves)
+        return {"matmul": lambda: (h1 @ h2, M1 @ M2), "add": lambda: (h1 + h2, M1 + M2), "sub": lambda: (h1 - h2, M1 - M2)}[k]()
+    h1, M1 = build_np(rec[2], n, leaves)
+    c, I_ = rec[1], np.eye(2 ** n)
+    return {"mul": lambda: (c * h1, c * M1), "rmul": lambda: (h1 * c, c * M1), "addc": lambda: (h1 + c, M1 + c * I_), "rsubc": lambda: (c - h1, c * I_ - M1)}[k]()
+
+
+def rec_exact(rec):
+    """True when every number of the recipe is an integer or a small dyadic rational (numpy arithmetic exact)"""
+    if isinstance(rec, (list, tuple)):
+        return all(rec_exact(x) for x in rec)
+    if isinstance(rec, float):
+        return float(rec * 8).is_integer()
+    return True
+
+
+def play_models(n, rec, fills, psi, rho):
+    leaves = {}
+    # the long-lived leaf objects first, caches filled through the public API
+    build_np(rec, n, leaves)
+    for key, (h, M) in leaves.items():
+        if h.nqubits != n:
+            return "skip"
+        for f in fills:
+            if f == "matrix":
+                h.matrix
+            elif f == "terms":
+                h.terms
+            elif f == "apply" and (h.terms or h.constant):
+                h @ psi
+    r, Mr = build_np(rec, n, leaves)
+    tol = 0.0 if rec_exact(rec) else 1e-12
+    msg = check_sym_obs(r, Mr, n, psi, rho, "the composite", tol)
+    if msg:
+        return msg
+    for key, (h, M) in leaves.items():
+        msg = check_sym_obs(h, M, n, psi, rho, f"the source {key} (after the operation)", tol)
+        if msg:
+            return msg
+    return None
+
+
+def rec_str(rec):
+    k = rec[0]
+    if k == "model":
+        return f"{rec[1]}({','.join(str(x) for x in rec[2:])})"
+    if k == "form":
+        from harness import c15 as base
+        return base.ast_str(base._tup(rec[1]))
+    if k in ("matmul", "add", "sub"):
+        return "(" + rec_str(rec[1]) + {"matmul": " @ ", "add": " + ", "sub": " - "}[k] + rec_str(rec[2]) + ")"
+    return f"{k}[{rec[1]}]({rec_str(rec[2])})"
+
+
+def gen_model_histories(run, rng):
+    from harness import c15 as base
+    quick = run.tier == "quick"
+    P = lambda p, q: ["form", ["S", p, q]]
+    out = []
+    specials = {2: [["model", "TFIM", 2, 0.5], ["model", "XXZ", 2, 0.5], ["model", "XXX", 2, 1, [0.5, 0, 0]], ["model", "MaxCut", 2, None],
+                    ["model", "Heisenberg", 2, [1, 2, -1], [1, 0, -1]], ["model", "Z", 2]],
+                3: [["model", "TFIM", 3, 1], ["model", "XXZ", 3, 0.5], ["model", "MaxCut", 3, [[0, 1, 2], [1, 0, -1], [0.5, 1, 0]]],
+                    ["model", "Heisenberg", 3, [1, -1, 2], [0, 1, 0]], ["model", "Y", 3], ["model", "XXX", 3, -1, [0, 0, 1]]],
+                4: [["model", "TFIM", 4, 2], ["model", "MaxCut", 4, None]]}
+    # every model, a single non-commuting symbol on either side and on both sides (the complete witness search for ONE mis-declared symbol)
+    for n, ms in specials.items():
+        for m in ms:
+            qs = list(range(n)) if n == 2 else [rng.randrange(n)]
+            for q in qs:
+                for p in ("XYZ" if n < 4 else rng.choice("XY")):
+                    out.append((n, ["matmul", P(p, q), m]))
+                    if n < 4 and (quick is False or rng.random() < 0.4):
+                        out.append((n, ["matmul", ["matmul", P(p, q), m], P(p, q)]))
+            out.append((n, ["matmul", m, P(rng.choice("XY"), rng.randrange(n))]))
+    for n in (2, 3):
+        ms = specials[n]
+        for _ in range(5 if quick else 40):
+            a, b, c = rng.choice(ms), rng.choice(ms), rng.choice(ms)
+            out.append((n, ["matmul", a, b]))
+            if n == 2:
+                out.append((n, ["matmul", ["matmul", a, b], c]))
+            out.append((n, ["matmul", ["add", a, base.rand_hand_form(rng, n)], ["rsubc", 2, b]]))
+    for _ in range(25 if quick else 250):
+        n = rng.choice([2, 2, 3])
+        m1, m2 = rng.choice([base.rand_model(rng, n), rng.choice(specials[n])]), base.rand_model(rng, n)
+        m1 = ["model", "MaxCut"] + m1[2:] if m1[1] == "2MaxCut" else m1
+        m2 = ["model", "MaxCut"] + m2[2:] if m2[1] == "2MaxCut" else m2
+        f1, f2 = base.rand_hand_form(rng, n), base.rand_hand_form(rng, n)
+        c = rng.choice([-3, -2, -1, 2, 0.5, -0.5])
+        rec = rng.choice([["matmul", f1, m1], ["matmul", m1, f1], ["matmul", m1, m2], ["matmul", ["matmul", f1, m1], f2],
+                          ["matmul", ["matmul", m1, f1], m2], ["matmul", ["add", m1, f1], m2], ["sub", ["mul", c, m1], f1],
+                          ["add", ["matmul", f1, m1], ["rmul", c, m2]], ["matmul", ["rsubc", c, m1], ["sub", f1, m2]],
+                          ["matmul", ["matmul", m1, m2], m1], ["add", m1, m2], ["sub", ["addc", c, m1], ["mul", c, m2]]])
+        out.append((n, rec))
+    return out
+
+
+def sec_models(run, rng):
+    recs = gen_model_histories(run, rng)
+    bad = nrun = 0
+    for j, (n, rec) in enumerate(recs):
+        fills = rng.sample(["matrix", "terms", "apply"], rng.randint(0, 3))
+        psi, rho = cstate(rng, n), cdm(rng, n)
+        try:
+            msg = play_models(n, rec, fills, psi, rho)
+        except Exception as e:      # noqa: BLE001
+            msg = f"raises {type(e).__name__}: {str(e)[:120]}"
+        if msg == "skip":
+            continue
+        nrun += 1
+        run.case(["models_algebra", n, rec, fills])
+        if j == 0:
+            run.sample({"kind": "model algebra history", "composite": rec_str(rec), "nqubits": n, "caches filled": fills})
+        if msg:
+            bad += 1
+            if bad <= MAXREP:
+                run.find(f"models:algebra:{rec_str(rec)}", f"{rec_str(rec)} on {n} qubits, built with the real operators from built-in symbolic models (dense=False; "
+                         f"long-lived objects, caches filled: {fills}) and hand-written forms: {msg}",
+                         {"mechanism": "models", "n": n, "recipe": rec, "fills": fills, "psi": enc(psi), "rho": enc(rho)})
+    run.oblige(f"test:built-in symbolic models (TFIM, XXZ, XXX, Heisenberg, MaxCut, X, Y, Z; integer and default dyadic parameters; n = 2..4) through the algebra "
+               f"streams: sums, scalar multiples, products @ of two and three factors with each other and with hand-written non-commuting forms; matrix, "
+               f"@ psi, @ rho, expectation on both routes == numpy on the documented formulas; sources unchanged ({nrun} composites)", bad == 0, "test")
+
+
+# ------------------------------------------------------------------ input representation invariance (family F)
+def _strided(v):
+    big = np.zeros(tuple(2 * x for x in v.shape), dtype=v.dtype)
+    view = big[tuple(slice(None, None, 2) for _ in v.shape)]
+    view[...] = v
+    return view
+
+
+def _ro(v):
+    w = v.copy()
+    w.setflags(write=False)
+    return w
+
+
+STATE_REPS = {"fortran": (False, np.asfortranarray), "strided_view": (False, _strided), "readonly": (False, _ro),
+              "complex64": (False, lambda v: v.astype(np.complex64)),
+              "float64": (True, lambda v: v.real.astype(np.float64)), "float64_fortran": (True, lambda v: np.asfortranarray(v.real.astype(np.float64))),
+              "int64": (True, lambda v: np.rint(v.real).astype(np.int64)), "float32": (True, lambda v: v.real.astype(np.float32))}
+
+
+def play_representation(n, rec, rep, real, psi, rho):
+    """h @ x and h.expectation(x) on both routes with x handed over in another representation of the same numbers; the dense
+    Hamiltonian built from a re-typed matrix"""
+    from qibo.hamiltonians import Hamiltonian
+    need_real, conv = STATE_REPS[rep]
+    h, M = build_np(rec, n, {})
+    if h.nqubits != n or (not h.terms and not h.constant):
+        return "skip"
+    if real:
+        psi, rho = psi.real.astype(complex), rho.real.astype(complex)
+    elif need_real:
+        return "skip"
+    p2, r2 = conv(psi), conv(rho)
+    g = Guard(psi=p2, rho=r2)
+    hd = h.dense
+    want = {"h @ psi": M @ psi, "h @ rho": M @ rho, "expectation(psi)": np.real(np.vdot(psi, M @ psi)), "expectation(rho)": np.real(np.trace(M @ rho))}
+    for route, obj in (("symbolic (term by term)", h), ("dense", hd)):
+        got = {"h @ psi": obj @ p2, "h @ rho": obj @ r2, "expectation(psi)": obj.expectation(p2), "expectation(rho)": obj.expectation(r2)}
+        for k, v in got.items():
+            v, w = np.asarray(v), np.asarray(want[k])
+            if v.shape != w.shape or not np.array_equal(v.astype(complex), w.astype(complex)):
+                return f"{route} route: {k} changes when the state is handed over as {rep} (same numbers)"
+    if g.changed():
+        return f"the {rep} input was modified: {g.changed()}"
+    Mr = np.asarray(hd.matrix)
+    if (not need_real or not np.any(Mr.imag)) and rep != "readonly":
+        d2 = Hamiltonian(n, conv(Mr))
+        if not np.array_equal(np.asarray(d2.matrix).astype(complex), Mr) or not np.array_equal(np.asarray(d2 @ psi).astype(complex), M @ psi) \
+                or float(d2.expectation(psi)) != float(want["expectation(psi)"]):
+            return f"Hamiltonian(n, matrix as {rep}): matrix / @ psi / expectation differ from the complex128 C-order construction"
+    return None
+
+
+def sec_representation(run, rng):
+    from harness import c15 as base
+    cnt = 40 if run.tier == "quick" else 300
+    bad = nrun = 0
+    for j in range(cnt):
+        n = rng.choice([1, 2, 2, 3])
+        r = rng.random()
+        if r < 0.35 and n > 1:
+            m = base.rand_model(rng, n)
+            rec = ["model", "MaxCut"] + m[2:] if m[1] == "2MaxCut" else m
+            rec = rec if rng.random() < 0.5 else ["matmul", base.rand_hand_form(rng, n), rec]
+        else:
+            rec = ["form", base._lst(rng.choice([lambda: base.rand_form(rng, n, 2), lambda: base.rand_product(rng, n, rng.randrange(1, 4)),
+                                                 lambda: base.rand_pow_form(rng, n)])())]
+        rep = rng.choice(sorted(STATE_REPS))
+        real = STATE_REPS[rep][0] or rng.random() < 0.3
+        psi, rho = cstate(rng, n), cdm(rng, n)
+        try:
+            msg = play_representation(n, rec, rep, real, psi, rho)
+        except AssertionError:
+            continue
+        except Exception as e:      # noqa: BLE001
+            msg = f"raises {type(e).__name__}: {str(e)[:140]}"
+        if msg == "skip":
+            continue
+        nrun += 1
+        run.case(["representation", n, rec, rep, real])
+        if msg:
+            bad += 1
+            if bad <= MAXREP:
+                run.find(f"representation:{rep}:{rec_str(rec)}", f"H = {rec_str(rec)} on {n} qubits, state / density matrix handed over as {rep}: {msg}",
+                         {"mechanism": "representation", "n": n, "recipe": rec, "rep": rep, "real": real, "psi": enc(psi), "rho": enc(rho)})
+    run.oblige(f"test:input representation invariance: h @ psi, h @ rho, expectation on the symbolic and the dense route, and Hamiltonian(n, matrix), with the "
+               f"same numbers as int64 / float64 / float32 / complex64 / Fortran order / strided view / read-only == the complex128 C-order answer ({nrun} cases)",
+               bad == 0, "test")
+
+
 def main_sections(run, rng):
     import time
     walls = {}
-    for name, fn in (("hist_dense", sec_dense), ("hist_symbolic", sec_symbolic), ("primitives", sec_primitives), ("from_circuit", sec_circuit)):
+    for name, fn in (("hist_dense", sec_dense), ("hist_symbolic", sec_symbolic), ("primitives", sec_primitives), ("from_circuit", sec_circuit),
+                     ("models", sec_models), ("representation", sec_representation)):
         t0 = time.time()
         fn(run, rng)
         walls[name] = round(time.time() - t0, 1)
@@ -647,6 +937,16 @@ def replay(run, data):
         E = embed(P, tuple(qs), n)
         hit = (not np.array_equal(np.asarray(t(nb, np.array(psi), n)), E @ psi)
                or not np.array_equal(np.asarray(t(nb, np.array(rho), n, density_matrix=True)), E @ rho))
+    elif mech == "representation":
+        try:
+            hit = play_representation(rp["n"], rp["recipe"], rp["rep"], rp["real"], dec(rp["psi"]), dec(rp["rho"])) not in (None, "skip")
+        except Exception:       # noqa: BLE001
+            hit = True
+    elif mech == "models":
+        try:
+            hit = play_models(rp["n"], rp["recipe"], rp["fills"], dec(rp["psi"]), dec(rp["rho"])) is not None
+        except Exception:       # noqa: BLE001
+            hit = True
     elif mech in ("setters", "primitive", "from_circuit"):
         rng = random.Random(0)
         {"setters": lambda: sec_setters(run), "primitive": lambda: sec_primitives(run, rng), "from_circuit": lambda: sec_circuit(run, rng)}[mech]()
